@@ -61,6 +61,9 @@ func innerEOL(t *tape.Tape, eol string) string {
 }
 
 func flatTarget(sh Shape) string {
+	if sh.NumericFilter {
+		return ".[F1 >= 0]"
+	}
 	if sh.SkipValue != "" {
 		return ".[F0 != '" + sh.SkipValue + "']"
 	}
@@ -69,6 +72,9 @@ func flatTarget(sh Shape) string {
 
 // paddedTarget is flatTarget for fixed-width fields (values carry their padding).
 func paddedTarget(sh Shape) string {
+	if sh.NumericFilter {
+		return ".[F1 >= 0]"
+	}
 	if sh.SkipValue != "" {
 		return ".[not(starts-with(F0, '" + sh.SkipValue + "'))]"
 	}
